@@ -123,6 +123,11 @@ package ggml
 
 //@ func (*containerGGUF).Decode
 //@   modifies *c
+// C10 "ends with a decoded model or an error" - exactly one of the two (coverage extension): an
+// error of the inner decoder is not swallowed into a half-decoded model, success carries a model
+//@   ensures result.1 == nil ==> result.0 != nil
+//@   ensures result.1 != nil ==> result.0 == nil
+//@   assert-at call Decode #1 : arg1 == rs
 
 //@ func (Tensor).blockSize
 //@   pure reads none
@@ -178,6 +183,8 @@ package ggml
 //@ func Decode
 //@   ghost-at after call Seek #1 : ghost_endoff := result.0
 //@   ensures result.2 == nil ==> result.1 == ghost_endoff && result.0 != nil
+// (coverage extension) a failure is reported as an error with no model
+//@   ensures result.2 != nil ==> result.0 == nil
 
 //@ func DetectContentType
 //@   modifies nothing
@@ -199,6 +206,7 @@ package ggml
 //@   modifies nothing
 //@ func (KV).Uint
 //@   modifies nothing
+//@   ensures 0 <= result && result < (1 << 32)      -- (coverage extension) a uint32: makes WriteGGUF's range assumption on the alignment a proved fact
 
 // ---- accessors used by the memory estimator (C16). Model metadata is immutable after
 // ---- decoding, so these are functions of their receiver only (assumption A-meta).
@@ -328,6 +336,15 @@ package ggml
 //@   ghost-at after call ggufWriteTensorInfo #1 : ghost_nmj := ite(rangeindex + 1 == anytensor(0), len(t.Name), ghost_nmj)
 //@   loop 2 invariant 0 <= anytensor(0) && anytensor(0) <= rangeindex ==> ghost_shj == blk(ts[anytensor(0)].Shape) && ghost_kdj == ts[anytensor(0)].Kind && ghost_nmj == len(ts[anytensor(0)].Name)
 //@   assert-at call ggufWriteTensor #1 : rangeindex + 1 == anytensor(0) ==> blk(arg1.Shape) == ghost_shj && arg1.Kind == ghost_kdj && len(arg1.Name) == ghost_nmj
+// ---- added by the coverage extension (appended) ----
+// every record goes to THIS stream; each key is written with ITS value (the i-th sorted key and
+// kv[that key] - not a stale key or the value of another key); the data blocks are padded with the
+// SAME alignment the declared offsets were computed with (otherwise the two recurrences differ).
+//@   assert-at call ggufWriteKV #1 : arg0 == ws
+//@   assert-at call ggufWriteKV #1 : arg1 == keys[rangeindex + 1]
+//@   assert-at call ggufWriteKV #1 : has(kv, arg1) ==> arg2 == kv[arg1]
+//@   assert-at call ggufWriteTensorInfo #1 : arg0 == ws
+//@   assert-at call ggufWriteTensor #1 : arg0 == ws && arg2 == alignment
 
 // C05 "decodes to the same keys and values": the type tag written for a value is the GGUF
 // constant of its Go type (the constants gguf.Decode / readGGUFArray switch on), the key is
@@ -346,6 +363,26 @@ package ggml
 //@   assert-at call Write #5 : binsize(arg2) == 8
 //@   assert-at call Write #6 : binsize(arg2) == 8
 //@   assert-at call Write #7 : binsize(arg2) == len(e)
+// ---- added by the coverage extension (appended): the value record directly follows the key (u64
+// ---- length + bytes) - no byte in between, whatever the value's type; every writer gets THIS stream;
+// ---- the []string record is tag, element tag, u64 count, then per element u64 length + bytes.
+//@   ghost-at entry : ghost_k0 := ws.ghost_pos
+//@   assert-at call Write #1 : arg0 == ws
+//@   assert-at call Write #2 : arg0 == ws && ws.ghost_pos == ghost_k0 + 8
+//@   assert-at call writeGGUF #1 : arg0 == ws && ws.ghost_pos == ghost_k0 + 8 + len(k)
+//@   assert-at call writeGGUF #2 : arg0 == ws && ws.ghost_pos == ghost_k0 + 8 + len(k)
+//@   assert-at call writeGGUF #3 : arg0 == ws && ws.ghost_pos == ghost_k0 + 8 + len(k)
+//@   assert-at call writeGGUFString #1 : arg0 == ws && ws.ghost_pos == ghost_k0 + 8 + len(k)
+//@   assert-at call writeGGUFArray #1 : arg0 == ws && ws.ghost_pos == ghost_k0 + 8 + len(k)
+//@   assert-at call writeGGUFArray #2 : arg0 == ws && ws.ghost_pos == ghost_k0 + 8 + len(k)
+//@   assert-at call writeGGUFArray #3 : arg0 == ws && ws.ghost_pos == ghost_k0 + 8 + len(k)
+//@   assert-at call Write #3 : arg0 == ws && ws.ghost_pos == ghost_k0 + 8 + len(k)
+//@   assert-at call Write #4 : arg0 == ws && ws.ghost_pos == ghost_k0 + 8 + len(k) + 4
+//@   assert-at call Write #5 : arg0 == ws && ws.ghost_pos == ghost_k0 + 8 + len(k) + 8
+//@   loop 1 invariant rangeindex == -1 ==> ws.ghost_pos == ghost_k0 + 8 + len(k) + 16
+//@   ghost-at call Write #6 : ghost_e0 := ws.ghost_pos
+//@   assert-at call Write #6 : arg0 == ws
+//@   assert-at call Write #7 : arg0 == ws && ws.ghost_pos == ghost_e0 + 8
 
 // ---- C10 audit: the typed array accessors (the KV.* helpers of "where it lives"). They index
 // ---- and type-assert what the file declared.
